@@ -121,7 +121,21 @@ def run_case(cid, rng, workdir):
                    "[ modification ]\nC-ter\n[ atoms ]\nA0 {\"resname\": \"RA\", \"replace\": {\"charge\": -1.0}}\n"
             case["files"] = [(n, t + mods if n == "case.ff" else t) for n, t in case["files"]]
             bump(res, "with_modification_definitions")
-    ev = PC.evaluate(case, workdir)
+    # in a third of the runs the deferred writer keeps its temporary file on another file system than the output
+    # directory (TMPDIR on tmpfs, output on disk): the move is then a copy of whatever has reached the file
+    from vermouth.file_writer import DeferredFileWriter
+    from .C20 import other_fs_tmpdir
+    tmpd = other_fs_tmpdir(workdir) if rng.random() < 0.35 else None
+    DeferredFileWriter()._tmpdir = tmpd
+    if tmpd:
+        bump(res, "temp_dir_on_other_filesystem")
+    try:
+        ev = PC.evaluate(case, workdir)
+    finally:
+        DeferredFileWriter()._tmpdir = None
+        if tmpd:
+            import shutil
+            shutil.rmtree(tmpd, ignore_errors=True)
     res["sig"] = sig_of([case["files"], case["graph"]])
     res["sample"] = case["descr"]
     run = ev["run"]
